@@ -27,10 +27,13 @@ class PROP(Prop):
     title = "from end of stream: every exit of the receiver loop reaches the epilogue; _terminate_execution returns with an idle execution pool or has called os._exit, within 5 + 10 s of ghost clock, for arbitrary (possibly non-terminating) user tasks; serve() lets no exception escape"
     design_ref = "DESIGN.md section 4, C11"
     targets = [f"term::{TE}", f"term::{GB}:WorkerGateway.serve", f"{GB}:BaseGateway._thread_receiver", f"{GB}:ChannelFactory._finished_receiving",
+               # what the sweep calls for every channel and callback: nothing but the documented interrupts may escape them (an exception here ends the receiver
+               # thread before the shutdown ladder is reached)
+               f"{GB}:ChannelFactory._local_close", f"{GB}:ChannelFactory._no_longer_opened",
                # end of stream is noticed wherever the initiator died, also in the middle of a frame: the read loops return exactly n bytes or raise EOFError, and terminate
                # (variant obligation), so the receiver cannot spin on a closed pipe (contracts of C08)
                f"io::{GB}:Popen2IO.read", "io::execnet.gateway_socket:SocketIO.read", f"io::{GB}:Message.from_io"]
-    heavy = {f"{GB}:BaseGateway._thread_receiver": 8, f"{GB}:ChannelFactory._finished_receiving": 4}
+    heavy = {f"{GB}:BaseGateway._thread_receiver": 8, f"{GB}:ChannelFactory._finished_receiving": 4, f"{GB}:ChannelFactory._local_close": 3}
     extra_worlds = {"term": term_world, "io": lambda w: __import__("contracts.io", fromlist=["declare"]).declare(w)}
     assumptions = [
         "ghost clock: WorkerPool.waitall(t) with a numeric t advances it by at most t and returns True only when no accepted task is unfinished (C09); non-blocking statements cost epsilon, which is not counted",
